@@ -273,6 +273,7 @@ class Job:
         self.decoders = {}
         self.exclude = []          # literals conjoined (negated) to every query: known-finding regions
         self.expected_errors = lambda kind, msg: False
+        self.sample_replays = 0    # >0: differential validation through the native replay functions (see solve)
 
     # -- setup
     def functions(self, mod, names):
@@ -408,6 +409,11 @@ class Job:
                 res['violations'].append(cex)
             else:
                 res['inconclusive'].append({'obligation': label, 'reason': str(m)})
+        # differential validation through the replay recipes: on random models that violate no obligation of this job the
+        # NATIVE replay function (fresh interpreter, unmodified library) must not see a violation either; a disagreement
+        # means the encoder lost a behaviour (or the oracle and the replay judge differ) -> harness error, never a verdict
+        if self.sample_replays and not res['violations']:
+            self._sample_replays(base)
         # samples: decoded random instances of the input space
         if self.inputs and nsamples:
             for m in random_models(self.rng, nsamples):
@@ -423,3 +429,65 @@ class Job:
 
 class HarnessError(Exception):
     pass
+
+
+def _sample_replays(self, base):
+    import json, subprocess, tempfile
+    recipes = [(label, bad, replay) for label, bad, demanded, replay in self.obl if replay and not replay[1].get('hang')]
+    if not recipes:
+        return
+    seen, chosen = set(), []
+    for label, bad, replay in recipes:        # one recipe per replay kind and expectation
+        key = (replay[0], str(replay[1].get('expect', '')), str(replay[1].get('what', replay[1].get('op', ''))))
+        if key not in seen:
+            seen.add(key)
+            chosen.append((label, replay))
+    models = []
+    tries = 0
+    while len(models) < self.sample_replays and tries < 200:
+        tries += 1
+        m = random_models(self.rng, 1)[0]
+        mv = single_model(m)
+        if all(mv(a) for a in base) and not any(mv(bad) for _, bad, _, _ in self.obl):
+            models.append(mv)
+    batch = []
+    for mv in models:
+        for label, (kind, extra) in chosen[:6]:
+            batch.append({'label': label, 'replay': {'kind': kind, **{k: (v(mv) if callable(v) else v) for k, v in extra.items()}}})
+    if not batch:
+        return
+    verif = os.path.dirname(os.path.dirname(os.path.abspath(__file__)))
+    sd = os.environ.get('VERIF_SCRATCH') or os.path.join(verif, '.scratch')
+    os.makedirs(sd, exist_ok=True)
+    fd, path = tempfile.mkstemp(suffix='.json', prefix='batch_', dir=sd)
+    os.close(fd)
+    try:
+        json.dump(batch, open(path, 'w'), default=str)
+        env = dict(os.environ, PYTHONPATH=verif, PYTHONHASHSEED='0')
+        env.pop('GAMBATOOLS_VERIF', None)
+        try:
+            p = subprocess.run([os.environ.get('VERIF_NATIVE_PY', '/venv/bin/python'), '-m', 'harness.run', '--replay-batch', self.prop, path],
+                               cwd=verif, env=env, capture_output=True, text=True, timeout=240)
+        except subprocess.TimeoutExpired:
+            self.result['notes'].append('replay sampling skipped (native batch timed out)')
+            return
+        lines = [l for l in p.stdout.split('\n') if l.startswith('BATCH ')]
+        if not lines:
+            self.result['notes'].append('replay sampling skipped (native batch failed: %s)' % (p.stderr or p.stdout)[-200:])
+            return
+        outs = json.loads(lines[0][6:])
+        for item, (ok, detail) in zip(batch, outs):
+            if ok:
+                self._diff_mismatch('native replay sees a violation on a sampled input that violates no lifted obligation: %s | %s | %s' %
+                                    (item['label'], json.dumps(item['replay'], default=str)[:500], str(detail)[:300]))
+                break
+        self.result['differential_models'] += len(outs)
+        self.result['notes'].append('%d sampled inputs re-judged by the native replay functions' % len(outs))
+    finally:
+        try:
+            os.unlink(path)
+        except OSError:
+            pass
+
+
+Job._sample_replays = _sample_replays
